@@ -261,6 +261,9 @@ type Built struct {
 	bgWg    sync.WaitGroup
 	Sampled atomic.Int64
 	safety  atomic.Pointer[string]
+	// WithholdCF: while set, no peer answers getcfheaders / getcfcheckpt
+	// (filter headers lag behind block headers).
+	WithholdCF atomic.Bool
 }
 
 // Tip returns the honest best tip.
@@ -358,6 +361,19 @@ func Build(p Plan) *Built {
 			w.AddPeer(tip).Services = wire.SFNodeNetwork | wire.SFNodeCF
 		}
 		for _, pr := range w.Peers[first:] {
+			inner := pr.Mutate
+			pr.Mutate = func(p *netsim.Peer, req wire.Message, honest []wire.Message) []wire.Message {
+				switch req.(type) {
+				case *wire.MsgGetCFHeaders, *wire.MsgGetCFCheckpt:
+					if b.WithholdCF.Load() {
+						return nil
+					}
+				}
+				if inner != nil {
+					return inner(p, req, honest)
+				}
+				return honest
+			}
 			if pp.HdrBatch > 0 {
 				pr.HdrBatch = pp.HdrBatch
 			}
